@@ -43,6 +43,8 @@ class Graph(BaseGraph):
     def _add_nodes(self, states, container):
         for state in states:
             container.append("state \"{}\" as {}".format(self._convert_state_attributes(state), state["name"]))
+            if state.get("final", False):
+                container.append("{} --> [*]".format(state["name"]))
             container.append("Class {} s_{}".format(state["name"],
                                                     self.custom_styles["node"][state["name"]] or "default"))
 
